@@ -44,6 +44,8 @@ type Campaign struct {
 	Classify func(s *Sim) (labels []string, nontrivial bool, signature string)
 	// Extra oracles evaluated on the finished simulation
 	Extra func(s *Sim) []Violation
+	// Finish may add counters to the statistics before they are written
+	Finish func(st *core.Stats)
 }
 
 var (
@@ -177,6 +179,11 @@ func RunCampaign(t *testing.T, c Campaign) {
 	dir := core.Scratch("verif-sim-")
 	defer os.RemoveAll(dir)
 	defer stats.Write()
+	defer func() {
+		if c.Finish != nil {
+			c.Finish(stats)
+		}
+	}()
 	fatal := map[string]bool{}
 	for _, p := range c.Fatal {
 		fatal[p] = true
